@@ -705,6 +705,7 @@ def evaluate(plan):
             # backslash; marking the backslash alone (as shipped) or the
             # whole symbol are both "that very word": one canonical length
             if r.get('word') in SYMBOL_TARGETS and r.get('length') == 2:
+                r['raw_length'] = 2     # what was reported (agreement clause)
                 r['length'] = 1
     for ui, (label, tex, eff) in enumerate(us):
         reps = got[ui]
@@ -807,8 +808,8 @@ def evaluate(plan):
                             if word_of(m.get('message')) is not None)
             except (ValueError, KeyError, IndexError, TypeError):
                 return viol('agreement:twin-report-unparsable', unit=label)
-            sv = sorted((r['offset'], r['length']) for r in got[ui]
-                        if r.get('word') is not None)
+            sv = sorted((r['offset'], r.get('raw_length', r['length']))
+                        for r in got[ui] if r.get('word') is not None)
             if sv != tw:
                 return viol('agreement:server-vs-json-file', unit=label,
                             server=sv[:8], json_file=tw[:8],
